@@ -16,6 +16,7 @@ CLASSES = ["index-get", "index-set", "negative-index", "length", "shape", "int-l
            "bigger-items", "non-member", "wrong-context", "offset-no-buffer", "construct-shape", "struct-with-other-length"]
 FLOORS = {"attempts": 20000, "raised": 15000, "state_checks": 20000}
 FLOORS.update({"class:" + c: 300 for c in CLASSES})
+FLOORS["class:struct-with-other-length"] = 80
 FLOORS.update({"multibyte_too_long_strings": 300, "misuse_value_as_xobject": 300})
 RULE = ("random type AST x value x placement with a neighbouring xobject; up to 8 misuse attempts per object, each at a "
         "random applicable element position, through handle or view: index outside shape (get/set, negative on "
